@@ -16,6 +16,7 @@ from copy import deepcopy
 
 from .rank    import Rank
 from .fiber   import Fiber
+from .fiber   import TupleSafeLoader
 from .payload import Payload
 
 #
@@ -1947,7 +1948,7 @@ class Tensor:
 
         with open(file, 'r') as stream:
             try:
-                y_file = yaml.safe_load(stream)
+                y_file = yaml.load(stream, Loader=TupleSafeLoader)
             except yaml.YAMLError as exc:
                 print(exc)
                 exit(1)
